@@ -61,7 +61,7 @@ def replay_external(path):
     return (r.returncode == 1 and 'REPLAY-VERDICT REPRODUCED' in r.stdout), (r.stdout + r.stderr)[-1500:]
 
 
-def run_all(jobs, workers):
+def run_all(jobs, workers, should_stop=lambda: False):
     """Every job runs in its own interpreter (fresh module state) with a hard wall-clock limit: a path that never
     returns (solver or engine stuck) costs that job, not the whole check."""
     import tempfile
@@ -73,6 +73,8 @@ def run_all(jobs, workers):
     n = 0
     try:
         while pending or running:
+            if pending and should_stop():
+                pending = []          # seed evaluation only (VERIF_FAST_FAIL): a new violation is already on the table
             while pending and len(running) < workers:
                 j = pending.pop(0)
                 n += 1
@@ -127,8 +129,13 @@ def main(argv=None):
         jobs = [j for j in jobs if re.search(a.only, j.name)]
     jobs.sort(key=lambda j: -j.weight)
     results = []
-    for r in run_all(jobs, a.workers):
+    known0 = load_known()
+    fast = os.environ.get('VERIF_FAST_FAIL') == '1'     # used by tools/seed_eval.py only; the evidence then says so
+    hit = [False]
+    for r in run_all(jobs, a.workers, (lambda: hit[0]) if fast else (lambda: False)):
         results.append(r)
+        if fast and any(not any(matches(e, prop, r['name'], v) for e in known0) for v in r.get('violations', [])):
+            hit[0] = True
         ex = r.get('explore') or {}
         print('[%s] %-58s %-12s leaves=%-6s holds=%-6s unk=%-3s cpu=%ss %s' % (
             prop, r['name'][:58], r['status'], ex.get('leaves', '-'), ex.get('holds', '-'),
@@ -220,6 +227,7 @@ def main(argv=None):
             'solver_time_s': round(tot('z3_s'), 2),
             'cpu_s': round(tot('cpu_s'), 1),
             'only_filter': a.only,
+            'fast_fail': fast,
         },
         'assumptions': sorted(set(x for r in results for x in r.get('assumptions', []))) +
         meta.get('stubs', []),
